@@ -255,6 +255,14 @@ def _run(V, work, tier):
         name = "%s/%s/%s/%s" % (r["kind"], r["what"], r["shape"], r["entry"])
         ok = o["outcome"] in r["allowed"]
         late = o["ms"] > DEADLINE + SLACK
+        if ok and late:
+            # (a wall clock under fourteen parallel processes: late counts only if the program is late again when run alone)
+            for _ in range(2):
+                o2 = hostile_one(binary, rec)
+                if o2["outcome"] in r["allowed"] and o2["ms"] <= DEADLINE + SLACK:
+                    V.notes.append("%s came back after %d ms under load and after %d ms alone: not a verdict" % (name, o["ms"], o2["ms"]))
+                    o, late = o2, False
+                    break
         if not ok:
             V.add(("outcome:%s:%s/%s" % (o["outcome"], r["what"], r["shape"])) if o["outcome"] in ("crash", "wedge") else None,
                   "hostile program %s answered %s (allowed: %s): %s" % (name, o["outcome"], "/".join(r["allowed"]), (o.get("msg") or "")[:200]),
@@ -307,6 +315,7 @@ def _run(V, work, tier):
         return p.returncode, outs, p.stderr[-300:]
     with concurrent.futures.ThreadPoolExecutor(max_workers=12) as ex:
         cres = list(ex.map(read_chunk, chunks))
+    slow = []
     for ch, (rc, outs, err) in zip(chunks, cres):
         if rc != 0 or len(outs) != len(ch):
             # the process died part-way: the record after the last answer is the culprit
@@ -318,7 +327,19 @@ def _run(V, work, tier):
             if o["outcome"] not in ("value", "error"):
                 V.add(None, "reading %r: %s %s" % (base64.b64decode(r.get("b64", "")), o["outcome"], json.dumps(o.get("readers"))[:300]), {"input": r, "result": o})
             elif o["ms"] > 2000:
-                V.add(None, "reading %r took %d ms" % (base64.b64decode(r.get("b64", ""))[:40], o["ms"]), {"input": r, "result": o})
+                slow.append((r, o))
+    # a slow reading is a verdict only if it is slow AGAIN, alone, three times in a row: twelve reader processes next to
+    # other checks stall for seconds on a two-byte input (seen with the machine under load), and a wall clock cannot tell
+    for r, o in slow:
+        again = []
+        for _ in range(3):
+            p = subprocess.run([binary, "hostile"], input=json.dumps(r) + "\n", capture_output=True, text=True, env=goenv(), timeout=1200)
+            outs = [json.loads(l) for l in p.stdout.splitlines() if l.strip()]
+            again.append(outs[0]["ms"] if p.returncode == 0 and outs else 10 ** 9)
+        if min(again) > 2000:
+            V.add(None, "reading %r took %d ms (and %s ms when read again alone)" % (base64.b64decode(r.get("b64", ""))[:40], o["ms"], again), {"input": r, "result": o})
+        else:
+            V.notes.append("a reading of %d ms under load was %s ms when repeated alone: not a verdict" % (o["ms"], again))
     trace.append({"ev": "read", "outcome": "value", "ms": 0})
     V.coverage["reader_inputs"] = len(big) + nread
     # ---- 4. the builtin matrix ---------------------------------------------------------------------------------
